@@ -250,9 +250,10 @@ static void flowCase(Rng &rng, CaseResult &r, const std::string &profile, unsign
 // ------------------------------------------------------------------------------------------------
 // C11, second source of legal placements: direct construction by packing cells into free segments
 static void c11Constructed(Rng &rng, CaseResult &r) {
-  GenOpts o = makeProfile(rng, rng.chance(0.25) ? "big20" : "rowhigh");
+  bool comb = rng.chance(0.15);
+  GenOpts o = makeProfile(rng, comb ? "comb" : rng.chance(0.25) ? "big20" : "rowhigh");
   o.multiRow = false;
-  o.turned = rng.chance(0.5);
+  o.turned = !comb && rng.chance(0.5);
   Circuit c0 = genCircuit(rng, o);
   std::string pdesc;
   ColoquinteParameters params = genParams(rng, false, &pdesc);
@@ -627,11 +628,72 @@ static void c10Case(Rng &rng, CaseResult &r) {
   r.sig = std::string(stageName[stage]) + ":K" + std::to_string(std::min(K, 40)) + (baseOk ? ":ok" : ":thr") + (rejectParams ? "R" : "") + (infeasibleShape.empty() ? "" : "S");
 }
 
+// Many cells: tens to hundreds of thousands, with the netlist shapes that stress depth and length rather than values:
+// chains listed in order (every net links cell i to i+1), shuffled chains, hubs, random small nets.
+static void c07ScaleCase(uint64_t idx, Rng &rng, CaseResult &r) {
+  static const int sizes[4] = {20000, 60000, 150000, 250000};
+  int N = sizes[idx % 4];
+  int shape = (int)((idx / 4) % 4);  // 0 chain in order, 1 chain with the nets shuffled, 2 hubs, 3 random small nets
+  int H = 10;
+  std::vector<int> w(N + 2), h(N + 2, H), x(N + 2), y(N + 2);
+  long long area = 0;
+  for (int i = 0; i < N; ++i) { w[i] = (int)rng.range(2, 6); area += (long long)w[i] * H; }
+  w[N] = w[N + 1] = 4;
+  int side = (int)std::ceil(std::sqrt((double)area * 2.0));
+  int nRows = std::max(1, side / H), W = (int)(area * 2 / ((long long)nRows * H)) + 10;
+  for (int i = 0; i < N + 2; ++i) { x[i] = (int)rng.range(0, W - 6); y[i] = (int)rng.range(0, nRows - 1) * H; }
+  x[N] = 0; y[N] = 0; x[N + 1] = W - 4; y[N + 1] = (nRows - 1) * H;
+  Circuit c(N + 2);
+  std::vector<bool> fx(N + 2, false), ob(N + 2, false);
+  fx[N] = fx[N + 1] = true;
+  c.setCellWidth(w); c.setCellHeight(h); c.setCellX(x); c.setCellY(y); c.setCellIsFixed(fx); c.setCellIsObstruction(ob);
+  c.setupRows(Rectangle(0, W, 0, nRows * H), H);
+  std::vector<int> limits = {0}, cells, xo, yo;
+  auto pin = [&](int cell) { cells.push_back(cell); xo.push_back(1); yo.push_back(5); };
+  if (shape == 0 || shape == 1) {
+    std::vector<int> order(N - 1);
+    for (int i = 0; i < N - 1; ++i) order[i] = i;
+    if (shape == 1) for (int i = N - 2; i > 0; --i) std::swap(order[i], order[rng.range(0, i)]);
+    pin(N); pin(0); limits.push_back((int)cells.size());
+    for (int i : order) { pin(i); pin(i + 1); limits.push_back((int)cells.size()); }
+    pin(N - 1); pin(N + 1); limits.push_back((int)cells.size());
+  } else if (shape == 2) {
+    int hubs = 50;
+    for (int k = 0; k < hubs; ++k) {
+      int hub = (int)rng.range(0, N - 1);
+      for (int j = 0; j < N / hubs / 4; ++j) { pin(hub); pin((int)rng.range(0, N - 1)); limits.push_back((int)cells.size()); }
+    }
+    pin(N); pin(0); pin(N + 1); limits.push_back((int)cells.size());
+  } else {
+    for (int k = 0; k < N; ++k) { int deg = (int)rng.range(2, 4); for (int j = 0; j < deg; ++j) pin(rng.chance(0.01) ? N + (int)rng.range(0, 1) : (int)rng.range(0, N - 1)); limits.push_back((int)cells.size()); }
+  }
+  c.setNets(limits, cells, xo, yo);
+  static const char *sn[4] = {"chain-in-order", "chain-shuffled", "hubs", "random-small-nets"};
+  if (r.needSample()) r.sample = vf::J::obj().kv("cells", N).kv("netlist", sn[shape]).kv("nets", c.nbNets()).kv("rows", nRows).kv("row_width", W).kv("stages", "placeGlobal(effort 1, 2 steps) legalize placeDetailed(effort 1)").str();
+  if (r.dumpOnly) return;
+  ColoquinteParameters params(1, 1);
+  params.global.maxNbSteps = 2;
+  params.global.continuousModel.maxNbConjugateGradientSteps = 30;
+  params.detailed.nbPasses = 1;
+  try {
+    c.placeGlobal(params);
+    r.count("placeGlobal_returned");
+    c.legalize(params);
+    r.count("legalize_returned");
+    c.placeDetailed(params);
+    r.count("placeDetailed_returned");
+  } catch (const std::exception &e) {
+    r.count("threw");
+  }
+  r.nontrivial = true;
+  r.sig = std::string(sn[shape]) + ":" + std::to_string(N);
+}
+
 // ------------------------------------------------------------------------------------------------
 int main(int argc, char **argv) {
   std::vector<vf::Part> parts;
   auto add = [&](const std::string &name, vf::CaseFn fn, double budget = 20) { parts.push_back({name, fn, budget}); };
-  for (std::string prof : {"general", "rowhigh-any", "multirow", "turned", "polarity", "dense", "obstruction", "big", "crowded", "faraway"}) {
+  for (std::string prof : {"general", "rowhigh-any", "multirow", "turned", "polarity", "dense", "obstruction", "big", "crowded", "faraway", "comb"}) {
     add("c01." + prof, [prof](uint64_t, Rng &rng, CaseResult &r) { flowCase(rng, r, prof, O_C01); });
     add("c02.api." + prof, [prof](uint64_t, Rng &rng, CaseResult &r) { flowCase(rng, r, prof, O_C02); });
     add("c04." + prof, [prof](uint64_t, Rng &rng, CaseResult &r) { flowCase(rng, r, prof, O_C04); });
@@ -641,12 +703,13 @@ int main(int argc, char **argv) {
   for (std::string prof : {"general", "manyfixed", "dense", "obstruction", "crowded", "faraway", "big"})
     add("c03.flow." + prof, [prof](uint64_t, Rng &rng, CaseResult &r) { flowCase(rng, r, prof, O_C03); });
   add("c03.global", [](uint64_t, Rng &rng, CaseResult &r) { c03Global(rng, r); });
-  for (std::string prof : {"general", "rowhigh", "obstruction", "polarity", "dense", "crowded", "big20"})
+  for (std::string prof : {"general", "rowhigh", "obstruction", "polarity", "dense", "crowded", "big20", "comb"})
     add("c11.relegalize." + prof, [prof](uint64_t, Rng &rng, CaseResult &r) { flowCase(rng, r, prof, O_C11); });
   add("c11.constructed", [](uint64_t, Rng &rng, CaseResult &r) { c11Constructed(rng, r); });
   for (std::string prof : {"general", "degenerate", "big", "wide", "dense", "multirow", "obstruction", "floating", "blocked"})
     add("c07." + prof, [prof](uint64_t, Rng &rng, CaseResult &r) { c07Case(rng, r, prof, false); }, 120);
   add("c07.paramfuzz", [](uint64_t, Rng &rng, CaseResult &r) { c07Case(rng, r, "general", true); }, 120);
+  add("c07.scale", [](uint64_t idx, Rng &rng, CaseResult &r) { c07ScaleCase(idx, rng, r); }, 600);
   add("c10.enum", [](uint64_t, Rng &rng, CaseResult &r) { c10Case(rng, r); }, 60);
   return vf::runMain(argc, argv, parts);
 }
